@@ -110,7 +110,8 @@ CLAIMS = {
             "the reducing conversion; inverted states only feed add_state; each operator reaches the right primitives with the "
             "right operands; the moduli are 8 distinct primes in (2^31, 2^32); puts and tombstones are framed with distinct tags "
             "plus key and timestamp; the column loops of add_state / invert_state / hash_to_state visit every column (no element-dropping iterator, a "
-            "store in every iteration, no early exit) and invert_state stores prime[i] - column[i] for the same i.  Does not decide the algebraic laws over values or agreement with the published definition.", "§4 C14"),
+            "store in every iteration, no early exit), invert_state stores prime[i] - column[i] for the same i, and the conditional subtraction "
+            "happens exactly on `value >= prime` with the same column's prime after a 64-bit addition.  Does not decide the algebraic laws over values or agreement with the published definition.", "§4 C14"),
     "C15": ("field tables read from the macro-expanded MIR of every derived message (pack/pack_sz/stream/unpack agreement, WIRE_TYPE consts), TABLE reading of WireType tables, explicit-panic audit + R-ERR + implicit-bounds audit (array-bounds dataflow with same-buffer guards, interprocedural precondition of the unrolled varint decoder) over REACH(decoders); SIBLINGS pack/pack_sz delegation agreement with exact piecewise tabulation of a non-delegating Tag::pack_sz",
             "Decides table agreement and panic-freedom of explicit constructs: the derived encoders and decoder of each message "
             "mention the same (number, type, field) set with the type's wire type, numbers are unique, unknown fields are skipped; "
